@@ -5,16 +5,21 @@ package alt
 import (
 	"encoding/base64"
 	"fmt"
-	"math"
 	"reflect"
+	"strconv"
 	"time"
 
 	"github.com/ohler55/ojg"
 )
 
-// 23 for fraction in IEEE 754 which amounts to 7 significant digits. Use base
-// 10 so that numbers look correct when displayed in base 10.
-const fracMax = 10000000.0
+// float32To64 converts by way of the shortest decimal text that identifies
+// the float32. The result looks correct when displayed in base 10 (0.1 stays
+// 0.1 instead of 0.10000000149011612) and, unlike cutting the fraction at 7
+// digits, converts back to exactly the same float32.
+func float32To64(f float32) float64 {
+	f64, _ := strconv.ParseFloat(strconv.FormatFloat(float64(f), 'g', -1, 32), 64)
+	return f64
+}
 
 func decompose(v any, opt *Options) any {
 	switch tv := v.(type) {
@@ -38,11 +43,7 @@ func decompose(v any, opt *Options) any {
 	case uint64:
 		v = int64(tv)
 	case float32:
-		// This small rounding makes the conversion from 32 bit to 64 bit
-		// display nicer.
-		f, i := math.Frexp(float64(tv))
-		f = float64(int64(f*fracMax)) / fracMax
-		v = math.Ldexp(f, i)
+		v = float32To64(tv)
 	case []any:
 		a := make([]any, len(tv))
 		for i, m := range tv {
@@ -101,11 +102,7 @@ func alter(v any, opt *Options) any {
 	case uint64:
 		v = int64(tv)
 	case float32:
-		// This small rounding makes the conversion from 32 bit to 64 bit
-		// display nicer.
-		f, i := math.Frexp(float64(tv))
-		f = float64(int64(f*fracMax)) / fracMax
-		v = math.Ldexp(f, i)
+		v = float32To64(tv)
 	case []any:
 		for i, m := range tv {
 			tv[i] = alter(m, opt)
